@@ -2,6 +2,7 @@ import KitProofs.Lemmas.Processor
 import KitProofs.Lemmas.ProcessorProgress
 import KitProofs.Lemmas.Queue
 import KitProofs.Lemmas.Heap
+import KitProofs.Lemmas.ProcessorAccept
 /-!
 # C06 — queue.Processor: live items run exactly once, on time, in order; none stranded
 
@@ -236,6 +237,39 @@ theorem heap_refines_spec :
 (what `queue.Remove(key)` and the replace path of `queue.Insert` rely on). -/
 theorem heap_indices_consistent {h : Heap.H κ ν} {q : List (Item κ ν)} (hr : Heap.HRefines h q) :
     ∀ (k : Nat) (e : Heap.Entry κ ν), h[k]? = some e → e.index = (k : Int) := hr.1.idx
+
+/-! ## the trace acceptor of the correspondence step is sound -/
+
+/-- **accepted_trace_has_run**: if `accepts cfg tr` (what `kitdrv C06` computes for the events the
+harness observed), then a real run of `step` from `init` exists — `ls`, with the ghost history —
+that ends in a reachable state, explains every event in order (`Exec`: hidden internal labels
+anywhere, one candidate label per action event, state observations `park`/`quiet` true of the state
+they were made in), and whose visible labels are, one for one, the action events of the trace. -/
+theorem accepted_trace_has_run (cfg : Cfg) (tr : List (Obs κ ν)) (h : accepts cfg tr = true) :
+    ∃ (ls : List (Label κ ν)) (s' : State κ ν), runFrom cfg init ls = some s' ∧ Reach (lts cfg) s' ∧
+      Exec cfg false init tr ls (strip s') ∧
+      Pairs Explains (tr.filter Obs.isAction) (ls.filter Label.isVisible) := by
+  unfold accepts at h
+  cases hres : (simRun cfg (simInit cfg) tr).states with
+  | nil => simp [hres] at h
+  | cons t rest =>
+    obtain ⟨s0, hs0, ls, hex⟩ := simRun_sound cfg tr (simInit cfg) t (by rw [hres]; exact List.mem_cons_self)
+    simp only [simInit] at hs0 hex
+    obtain ⟨u, hu, hs, hp⟩ := closure_sound hs0
+    simp only [List.mem_singleton] at hu
+    subst hu
+    have hexec : Exec cfg false init tr (hs ++ ls) (strip t) := hp.exec hex
+    obtain ⟨s', hrun, hstrip⟩ := runS_lift cfg _ _ _ (exec_runS hexec)
+    refine ⟨hs ++ ls, s', hrun, reach_of_run Reach.init hrun, ?_, exec_projection hexec⟩
+    rw [hstrip]
+    exact hexec
+
+/-- End to end: in a trace accepted by the model of the current code every observed callback
+(`exec id key scheduled now`, stamped by the harness with the injected clock) is not early. -/
+theorem accepted_callbacks_not_early (tr : List (Obs κ ν)) (h : accepts fixedCfg tr = true)
+    {id : Nat} {k : κ} {tm now : Int} (he : Obs.exec id k tm now ∈ tr) : tm - halfMs ≤ now := by
+  obtain ⟨ls, s', _, _, hex, _⟩ := accepted_trace_has_run fixedCfg tr h
+  exact exec_callbacks_not_early hex init Reach.init rfl id k tm now he
 
 /-! ## facts regenerated from `processor.go` on every run (T1) -/
 
